@@ -42,6 +42,33 @@ pub fn run(thorough: bool, seed: u64, _replay: Option<String>) -> Report {
             pool.push(Case { bytes: bytes.clone(), sett: s, tag: format!("threshold-family:{}", f) });
         }
     }
+    // settings families: one content requested by different threads with different filters, language
+    // thresholds, windows or switches (anything a call might park in shared state between two steps)
+    let sfam_start = pool.len();
+    let mut n_sfam = 0;
+    for f in 0..4 {
+        let (name, enc) = [("russian", "windows-1251"), ("french", "iso-8859-1"), ("greek", "utf-8"), ("polish", "iso-8859-2")][f];
+        let base = TEXTS.iter().find(|(n, _)| *n == name).unwrap().1;
+        // families 0/1 are tiny (a call takes microseconds, so whatever a call does before and after the probing
+        // loop makes up most of it and calls of different threads interleave there), 2/3 are ordinary
+        let text = if f < 2 { base.chars().take(48).collect::<String>() } else { stretch(&mut rng, base, 700 + 300 * f) };
+        let bytes = match enc_bytes(&text, enc) { Some(b) => b, None => continue };
+        let variants: Vec<Sett> = {
+            let d = Sett::default();
+            let mut v = vec![];
+            let mut a = d.clone(); a.incl = vec![enc.to_string(), "utf-8".into()]; v.push(a);
+            let mut a = d.clone(); a.excl = vec![enc.to_string(), "utf-8".into(), "ascii".into()]; v.push(a);
+            let mut a = d.clone(); a.incl = vec!["koi8-r".into(), "ibm866".into(), "iso-8859-15".into(), "windows-1250".into()]; v.push(a);
+            let mut a = d.clone(); a.excl = vec!["windows-1252".into(), "iso-8859-1".into()]; a.lthr = 0.5; v.push(a);
+            let mut a = d.clone(); a.steps = 2; a.chunk = 64; a.fb = false; v.push(a);
+            let mut a = d.clone(); a.pre = false; a.lthr = 0.01; v.push(a);
+            v
+        };
+        for s in variants {
+            pool.push(Case { bytes: bytes.clone(), sett: s, tag: format!("settings-family:{}", f) });
+        }
+        n_sfam += 1;
+    }
     let reference: Vec<Outcome> = pool
         .iter()
         .map(|c| {
@@ -64,14 +91,16 @@ pub fn run(thorough: bool, seed: u64, _replay: Option<String>) -> Report {
     for round in 0..rounds {
         let n = thread_counts[round % thread_counts.len()];
         // identical inputs (everyone the same request), overlapping, or all different
-        let mode = round % 4;
+        let mode = round % 5;
         let base = rng.below(pool.len());
         let fam = fam_start + 4 * rng.below(3);
+        let sfam = sfam_start + 6 * rng.below(n_sfam.max(1));
         let assign: Vec<usize> = (0..n)
             .map(|i| match mode {
                 0 => base,
                 1 => (base + i % 3) % pool.len(),
                 3 => fam + i % 4,
+                4 if n_sfam > 0 => sfam + i % 6,
                 _ => rng.below(pool.len()),
             })
             .collect();
@@ -86,7 +115,17 @@ pub fn run(thorough: bool, seed: u64, _replay: Option<String>) -> Report {
                 let c = &pool[k];
                 // two calls per thread: the second one runs on caches other threads are filling
                 let a = real_detect(&c.bytes, &c.sett);
-                let b = real_detect(&c.bytes, &c.sett);
+                let mut b = real_detect(&c.bytes, &c.sett);
+                if mode == 4 {
+                    // settings families: keep calling for a while so that the calls of different threads interleave
+                    let reps = if c.bytes.len() < 200 { 400 } else { 12 };
+                    for _ in 0..reps {
+                        let x = real_detect(&c.bytes, &c.sett);
+                        if x != a {
+                            b = x;
+                        }
+                    }
+                }
                 (k, a, b)
             }));
         }
@@ -113,7 +152,7 @@ pub fn run(thorough: bool, seed: u64, _replay: Option<String>) -> Report {
             }
         }
         rep.count(&format!("herd:{}-threads", n));
-        rep.count(&format!("herd:mode-{}", ["identical", "overlapping", "random", "threshold-family"][mode]));
+        rep.count(&format!("herd:mode-{}", ["identical", "overlapping", "random", "threshold-family", "settings-family"][mode]));
         // no poisoned state left behind: a serial call and a flush (which locks every cache) still work
         let ok = std::panic::catch_unwind(|| {
             vh::flush_caches();
